@@ -187,6 +187,14 @@ _FORMULA_SHORT = {3: ["KCl", "H2O", "CO2"], 4: ["NaCl"], 5: ["CaCl2", "K2SO4"], 
 _FORMULA_BASES = ["NaCl1", "KCl1", "CaCl2", "Na2SO4", "H2O1", "CO2"]
 
 
+# (long lists multiply the number of reaction steps of every history step and of the follow-up on ~12 instances: next to
+# kinetic reactants only the kinetics' own list may be long, and only in cells without surface / solid solution / gas / phases)
+def list_length(hi=20):
+    """number of entries of an explicit step list: 1-3, or (one draw in three) 6..hi - the RAW writers put 5 numbers on the
+    first line and 6 on every continuation line, so only lists of >= 6 entries exercise the continuation-line readers"""
+    return st.one_of(st.integers(1, 3), st.integers(1, 3), st.integers(6, hi))
+
+
 @st.composite
 def long_formula(draw):
     """a valid neutral formula of a drawn length 3..40: short salts, or <salt>.<zeros> (e.g. CaCl2.000000 = CaCl2)"""
@@ -289,7 +297,7 @@ def render_solution(s):
 
 # ---------------------------------------------------------------------------------------------- reactants
 @st.composite
-def reaction(draw, prof, n, X=None):
+def reaction(draw, prof, n, X=None, long_ok=True):
     P = PROFILES[prof]
     names = _some(draw, P["react"], 1, 3)
     if draw(st.booleans()):
@@ -302,7 +310,7 @@ def reaction(draw, prof, n, X=None):
     scale = {"moles": 1.0, "mmol": 1e3, "umol": 1e6}[units]
     top = draw(cg.logu(1e-6, 0.05, 3))
     if draw(st.booleans()):
-        k = draw(st.integers(1, 3))
+        k = draw(list_length() if long_ok else st.integers(1, 3))
         fr = sorted(draw(st.lists(cg.uni(0.05, 1.0, 2), min_size=k, max_size=k)))
         L.append(" " + " ".join(fmt(float("%.4g" % (top * f * scale))) for f in fr) + " " + units)
         nst = k
@@ -604,7 +612,7 @@ def ss(draw, prof, n, robust=False):
 
 
 @st.composite
-def kin(draw, prof, n, X=None):
+def kin(draw, prof, n, X=None, long_ok=True):
     nr = draw(st.sampled_from([1, 2, 2, 3]))
     rates = draw(st.lists(st.sampled_from(["r_first", "r_const", "r_ratio", "r_sum"] + ([X["rate"]] if X else [])),
                           min_size=nr, max_size=nr, unique=True))
@@ -645,7 +653,7 @@ def kin(draw, prof, n, X=None):
             labels.append("kin_formula>1")
     top = draw(cg.logu(1.0, 1e4, 3))
     if draw(st.booleans()):
-        k = draw(st.integers(1, 3))
+        k = draw(list_length(12) if long_ok else st.integers(1, 3))
         L.append(" -steps " + " ".join(fmt(float("%.3g" % (top * (i + 1) / k))) for i in range(k)))
         nst = k
     else:
@@ -714,7 +722,7 @@ def case_strategy(draw, tier="quick"):
     # phases an exchanger / surface may be tied to: sparingly soluble (never exhausted at 10 mol), not in a solid solution
     relp = [m for m in ("Calcite", "Gypsum", "Dolomite", "Quartz", "Barite", "Celestite") if m in P["minerals"] and m not in ss_comps]
     if "kin" in want:
-        t, kin_rates, nst, lb = draw(kin(prof, c, X))
+        t, kin_rates, nst, lb = draw(kin(prof, c, X, not (want & {"surf", "ss", "gas", "pp"})))
         defs.append(t); labels += lb; nsteps = max(nsteps, nst)
     ex_t = su_t = None
     need = []
@@ -741,11 +749,11 @@ def case_strategy(draw, tier="quick"):
     if ss_t:
         defs.append(ss_t); labels += ss_lb
     if "reaction" in want:
-        t, nst, lb = draw(reaction(prof, c, X))
+        t, nst, lb = draw(reaction(prof, c, X, "kin" not in want))
         defs.append(t); labels += lb; nsteps = max(nsteps, nst)
     if draw(st.integers(0, 4)) == 0:
         if draw(st.booleans()):
-            k = draw(st.integers(1, 3))
+            k = draw(list_length() if "kin" not in want else st.integers(1, 3))
             defs.append("REACTION_TEMPERATURE %d\n %s" % (c, " ".join(fmt(draw(cg.uni(10.0, 60.0, 3))) for _ in range(k))))
         else:
             k = draw(st.integers(2, 3))
@@ -754,7 +762,7 @@ def case_strategy(draw, tier="quick"):
         want.add("temperature")
     if draw(st.integers(0, 4)) == 0:
         if draw(st.booleans()):
-            k = draw(st.integers(1, 3))
+            k = draw(list_length() if "kin" not in want else st.integers(1, 3))
             defs.append("REACTION_PRESSURE %d\n %s" % (c, " ".join(fmt(draw(cg.uni(1.0, 50.0, 3))) for _ in range(k))))
         else:
             k = draw(st.integers(2, 3))
